@@ -119,3 +119,19 @@ Fixpoint gspec_trace {A O : Type} (ok : A -> bool) (rej : A -> O -> option Z) (s
     | Some c => if Z.eqb c 0 then let a' := sstep a o in say a' ([0%Z] :: sobs a' ++ [[]]) :: gspec_trace ok rej sstep sobs sz qlen a' t
                 else say a ([c] :: sobs a ++ [[]]) :: gspec_trace ok rej sstep sobs sz qlen a t end
   | inr v :: t => (if Nat.ltb v (sz a) then None else say a ([0%Z] :: sobs a ++ [repeat (zexn OutOfRange) qlen])) :: gspec_trace ok rej sstep sobs sz qlen a t end.
+
+(* ---- C06 cases: two histories from the same initial size, then operator== / != both ways, reflexivity, copy, assignment, independence
+   (the last four are identities in a model of immutable values; the implementation has to earn them) ---- *)
+Fixpoint gfinal {S O : Type} (step : S -> O -> S * res) (s : S) (ops : list O) : option S :=
+  match ops with [] => Some s | o :: t => let '(s1, r) := step s o in match r with UBk _ => None | _ => gfinal step s1 t end end.
+Definition eq_vector {S : Type} (eqb : S -> S -> outcome bool) (a b : option S) : list Z :=
+  match a, b with
+  | Some x, Some y => [zout zbool (eqb x y); zout zbool (eqb y x); zout (fun v => zbool (negb v)) (eqb x y); zout (fun v => zbool (negb v)) (eqb y x);
+                       zout zbool (eqb x x); zout zbool (eqb y y); 1; 1; 1; 1]%Z
+  | _, _ => repeat zub 10 end.
+Fixpoint gsfinal {A O : Type} (rej : A -> O -> option Z) (sstep : A -> O -> A) (a : A) (ops : list O) : option A :=
+  match ops with [] => Some a | o :: t => match rej a o with None => None | Some c => gsfinal rej sstep (if Z.eqb c 0 then sstep a o else a) t end end.
+Definition lmap_sub {V : Type} (veq : V -> V -> bool) (m1 m2 : @lmap V) : bool :=
+  forallb (fun kv => match lfind (fst kv) m2 with Some v' => veq (snd kv) v' | None => false end) m1.
+Definition seq_vector (b : option bool) : option (list Z) :=
+  match b with Some v => Some [zbool v; zbool v; zbool (negb v); zbool (negb v); 1; 1; 1; 1; 1; 1]%Z | None => None end.
